@@ -8,8 +8,7 @@
      prox / grad    e.proximal(sigma)(x), e.gradient(x)
    [wf n e] (C08/Rules.v) are the side conditions under which the library's rules are meant
    to hold: LeftScalarMult s > 0, RightScalarMult s <> 0, RightVectorMult entries <> 0,
-   QuadraticPerturb a >= 0, Huber gamma > 0, QuadraticForm scaling > 0, vectors of length n,
-   and no affine QuadraticPerturb (c <> 0) of a functional flagged linear.
+   QuadraticPerturb a >= 0, Huber gamma > 0, QuadraticForm scaling > 0, vectors of length n.
    [sqrtf] is np.sqrt: any function with the defining property of the square root. *)
 From Coq Require Import Reals List Bool.
 From Verif Require Import Base.Num Base.Vec Base.VecR C08.Model C08.VecLemmas C08.Rules C08.Proofs
@@ -49,8 +48,8 @@ Proof. exact wf_example_proof. Qed.
    for all sigma > 0, all x, all dimensions and weights (incl. the sort-based l1-ball projection of the
    LpNorm(inf) <-> IndicatorLpUnitBall(1) pair, through its positive homogeneity, C08/ProjL1.v).
    [D e] (C08/ProxRules.v) excludes, besides the classes that have no proximal (for which the premise is
-   false anyway): a DefaultConvexConjugate wrapped around a functional flagged linear, and a reflection
-   f(s .), s < 0, of a functional whose conjugate is flagged linear. *)
+   false anyway), only a reflection f(s .), s < 0, of a functional whose conjugate is flagged linear
+   (the library's conjugate is then a LeftScalarMult with a negative scalar, which has no proximal). *)
 Theorem moreau_decomposition :
   forall (sqrtf : R -> R), (forall a, 0 <= a -> 0 <= sqrtf a /\ sqrtf a * sqrtf a = a) ->
   forall (e e' : fxR) (n : nat) (w x : list R) (sigma : R) (p q : list R),
@@ -82,16 +81,17 @@ Theorem fenchel_young_equality_at_gradient :
 Proof. exact grad_equality_tree. Qed.
 Print Assumptions fenchel_young_equality_at_gradient.
 
-(* T2 (partial)  f.convex_conj.convex_conj takes the same values as f, for every tree on which the
-   library can evaluate both:  [veq (Ok a) (Ok b)] is equality of extended values (finite values equal
-   as reals, +inf = +inf).  The trees for which f** is only the unevaluable default conjugate (Huber,
-   QuadraticPerturb with a <> 0 inside a conjugate, ...) make the premise false.
-   FULL STATEMENT = the same without [B e]; it is FALSE of the faithful model and of the library
-   (biconjugate_refuted below, finding defaultconj-linear-flag).  [B] (C08/Biconj.v) excludes scalar
-   multiples s*f, f(s.) of a functional whose CONJUGATE is flagged linear (Functional.__mul__ then builds
-   a LeftScalarMult; harmless for e.g. 2 * IndicatorZero, wrong when the flag comes from
-   FunctionalDefaultConvexConjugate) and QuadraticForm with both operator and vector; the harmless part of
-   the excluded set is compared by the correspondence (k_ccshape, k_ccval) and the 'biconj' probes only. *)
+(* T1  f.convex_conj.convex_conj takes the same values as f, for every tree on which the library can
+   evaluate both: [veq (Ok a) (Ok b)] is equality of extended values (finite values equal as reals,
+   +inf = +inf).  Trees for which f** is only the unevaluable default conjugate (Huber, QuadraticPerturb with
+   a <> 0 inside a conjugate, ...) make the premise false.  Includes the LeftScalarMult that
+   Functional.__mul__ builds when the conjugate is flagged linear (e.g. 2 * IndicatorZero: [zi] shows such
+   functionals only take the values 0 and +inf) and QuadraticForm with operator and vector.
+   [B e] (C08/Biconj.v) is the same single clause as in [D]: no reflection f(s .), s < 0, of a functional
+   whose conjugate is flagged linear -- there the library's conjugate is a LeftScalarMult with a negative
+   scalar whose own convex_conj raises ValueError, i.e. the biconjugate cannot be evaluated (hence the name
+   _partial is kept only because that last fact is not proved for un-merged nested reflections).
+   Before fix de676f9 of /repo the statement was false (finding defaultconj-linear-flag, guarded by a probe). *)
 Theorem biconjugate_partial :
   forall (sqrtf : R -> R), (forall a, 0 <= a -> 0 <= sqrtf a /\ sqrtf a * sqrtf a = a) ->
   forall (e e' e'' : fxR) (n : nat) (w x : list R) (vx vxx : extR),
@@ -105,15 +105,6 @@ Example B_example :
   let e : fxR := FLeft 2 (FTransl (FSep2 1 (FHuber 1) (FRight (-3) (FLp P2))) [1; 0; 2]) in
   wf 3 e /\ B e.
 Proof. exact B_example_proof. Qed.
-
-(* the unrestricted biconjugate statement is refuted: e = 2 * (<b,.> + 0) on rn(1) has e(x) = 2 but
-   e.convex_conj.convex_conj(x) = 1 at x = b = [1] *)
-Theorem biconjugate_refuted :
-  exists (e e' e'' : fxR) (x : list R) (vx vxx : extR),
-    wf 1 e /\ value sqrt 0 e [1] x = Ok vx /\ cconj [1] e = Ok e' /\ cconj [1] e' = Ok e'' /\
-    value sqrt 0 e'' [1] x = Ok vxx /\ ~ veq (Ok vxx) (Ok vx).
-Proof. exact biconj_refuted_proof. Qed.
-Print Assumptions biconjugate_refuted.
 
 (* T2  The Kullback-Leibler pairs (formulas transcribed by hand from the four _call bodies, with
    scipy's xlogy; NOT executed by the correspondence because of ln/exp -- tie = probes only):
